@@ -154,7 +154,7 @@ func c03Case(c *core.Ctx, idx int) {
 		desc := func() string {
 			return fmt.Sprintf("[%s]\n  S  %s\n  S' %s\n  value %s\n  prior %s\n  bytes %s", tc.name, typeString(tc.typ), typeString(s2), model.Show(v), model.Show(prior), hexHead(data))
 		}
-		if j == nv/2 && idx%2 == 0 {
+		if j == nv/2 && idx%3 == 0 {
 			// in between, somebody asks for the schemas
 			describe(tc.p, s2)
 			describe(tc.p, tc.typ)
